@@ -364,6 +364,15 @@ enum Case {
   Src { t: Tok, src: u8, pd: u8, over: u8, doc: bool },
   /// (e) a general-serialization token whose signature entries are drawn from GENMIX (one index per entry)
   GenMix { entries: Vec<u8> },
+  /// (b) one byte `with` inserted into a verifying compact token at `pos` (see INS_POS); `flip` != 0: those bits of the
+  /// inserted byte flipped (a single-bit flip of the token with the insertion, which verified)
+  Ins {
+    t: Tok,
+    pos: u8,
+    with: u8,
+    #[serde(default)]
+    flip: u8,
+  },
 }
 const REGION: [&str; 5] = ["compact-token", "protected-segment", "payload", "signature-segment", "detached-payload"];
 
@@ -706,6 +715,92 @@ fn eval_mut_w(ctx: &Ctx, acc: &mut Acc, case: &Case, t: &Tok, b: &Built, region:
   }
 }
 
+/// Where a byte is inserted into a compact token `h.p.s`.
+const INS_POS: [&str; 6] = ["start-of-token", "end-of-protected-segment", "start-of-payload-segment", "end-of-payload-segment", "start-of-signature-segment", "end-of-token"];
+/// Inserted bytes: the ASCII whitespace characters, padding, a base64url character, the separator, NUL, `~`, `"`.
+const INS: &[u8] = b" \t\n\r\x0c\x0b=A.\x00~\"";
+fn inserted(b: &Built, pos: u8, byte: u8) -> Option<Vec<u8>> {
+  let dots: Vec<usize> = b.token.iter().enumerate().filter(|(_, c)| **c == b'.').map(|(i, _)| i).collect();
+  if dots.len() != 2 {
+    return None;
+  }
+  let at = match pos {
+    0 => 0,
+    1 => dots[0],
+    2 => dots[0] + 1,
+    3 => dots[1],
+    4 => dots[1] + 1,
+    _ => b.token.len(),
+  };
+  let mut t = b.token.clone();
+  t.insert(at, byte);
+  Some(t)
+}
+/// The received protected segment / payload segment are longer than what was signed when a byte is inserted at
+/// positions 0..=3: the signature does not cover exactly the received segments, whatever the byte. Positions 4, 5 lie
+/// in the signature segment: a decoder that tolerates the byte there is not judged, but every single-bit flip of the
+/// tolerated byte is a single-bit flip of a token that verified.
+fn eval_ins(ctx: &Ctx, acc: &mut Acc, case: &Case, t: &Tok, b: &Built, pos: u8, with: u8, flip: u8) -> bool {
+  let ep = SER[t.ser as usize];
+  let first = |tok: &[u8]| -> Option<Vec<u8>> {
+    match guard(|| real_verify(t, b, tok, b.detached.as_deref())) {
+      Ok(Ok(items)) => items.into_iter().next().and_then(|r| r.ok()),
+      _ => None,
+    }
+  };
+  let Some(base) = inserted(b, pos, with) else { return false };
+  acc.evals += 1;
+  if flip != 0 {
+    // the token with the insertion must verify (it is verified here, immediately before its mutant)
+    if first(&base).is_none() {
+      acc.out("ins:flip-of-a-token-that-does-not-verify(not judged)");
+      return false;
+    }
+  } else {
+    let _ = first(&b.token);
+  }
+  let Some(token) = inserted(b, pos, with ^ flip) else { return false };
+  let place = INS_POS[pos as usize];
+  match guard(|| real_verify(t, b, &token, b.detached.as_deref())) {
+    Err(p) => {
+      ctx.violation(&format!("{ep}|{}", p.key()), &p.msg, case);
+      false
+    }
+    Ok(Err(l)) => {
+      acc.out(format!("ins:{place}:fails:{l}"));
+      false
+    }
+    Ok(Ok(items)) => match items.first() {
+      Some(Ok(claims)) => {
+        if flip != 0 {
+          ctx.violation(
+            &format!("{ep}|single-bit-flip-of-a-tolerated-inserted-byte|still-verifies"),
+            &format!("byte {with:#04x} inserted at {place} verifies; with bits {flip:#04x} of that byte flipped ({:#04x}) the token still verifies (claims {:?})", with ^ flip, String::from_utf8_lossy(claims)),
+            case,
+          );
+        } else if pos <= 3 {
+          ctx.violation(
+            &format!("{ep}|byte-inserted-in-{}|still-verifies", if pos <= 1 { "protected-segment" } else { "payload-segment" }),
+            &format!("byte {with:#04x} inserted at {place}: the received segment is not the signed one, the token still verifies (claims {:?})", String::from_utf8_lossy(claims)),
+            case,
+          );
+        } else {
+          acc.out(format!("ins:{place}:tolerated-by-the-signature-decoding [open]"));
+        }
+        true
+      }
+      Some(Err(l)) => {
+        acc.out(format!("ins:{place}:fails:{l}"));
+        false
+      }
+      None => {
+        acc.out(format!("ins:{place}:fails:no-item"));
+        false
+      }
+    },
+  }
+}
+
 /// Byte-substitution alphabets: the structural characters of the formats, and every byte value.
 const SUBST: &[u8] = b"ABCDEFGHIJKLMNOPQRSTUVWXYZabcdefghijklmnopqrstuvwxyz0123456789-_.=+/\"\\ ~\x00\x7f\xff";
 static ALL_BYTES: Lazy<Vec<u8>> = Lazy::new(|| (0..=255u8).collect());
@@ -731,6 +826,23 @@ fn sweep(ctx: &Ctx, acc: &mut Acc, t: &Tok, subst: &[u8]) -> u64 {
         for &w in subst {
           let c = Case::Mut { t: t.clone(), region, sig, byte: byte as u32, xor: 0, with: w };
           eval_mut_w(ctx, acc, &c, t, &b, region, sig, byte, 0, w, false);
+        }
+      }
+    }
+  }
+  // byte insertions (compact serialization): at both ends of every segment
+  if t.ser == 0 {
+    for pos in 0..6u8 {
+      if t.det && (pos == 2 || pos == 3) {
+        continue; // would add an embedded payload to a detached-payload token: part (d)
+      }
+      for &with in INS {
+        let c = Case::Ins { t: t.clone(), pos, with, flip: 0 };
+        if eval_ins(ctx, acc, &c, t, &b, pos, with, 0) && pos >= 4 {
+          for bit in 0..8u8 {
+            let c = Case::Ins { t: t.clone(), pos, with, flip: 1 << bit };
+            eval_ins(ctx, acc, &c, t, &b, pos, with, 1 << bit);
+          }
         }
       }
     }
@@ -1168,6 +1280,11 @@ fn eval_into(ctx: &Ctx, acc: &mut Acc, case: &Case) {
     Case::Doc { t, pin_other, m, other_method } => eval_doc(ctx, acc, case, t, *pin_other, *m, *other_method),
     Case::Ver { alg, key, sig, via } => eval_ver(ctx, acc, case, *alg, *key, *sig, *via),
     Case::GenMix { entries } => eval_genmix(ctx, acc, case, entries),
+    Case::Ins { t, pos, with, flip } => {
+      if let Some(b) = build(t, false, None) {
+        eval_ins(ctx, acc, case, t, &b, *pos, *with, *flip);
+      }
+    }
     Case::Src { t, src, pd, over, doc } => eval_src(ctx, acc, case, t, *src, *pd, *over, *doc),
   }
 }
